@@ -174,7 +174,15 @@ fn damage_sure(src: &mut Src, case: &Case) -> Option<(String, &'static str, Scop
         11 => {
             let s = pick_span(src, spans, |s| s.kind == ItemKind::ElementEnd)?;
             let what = ["< ", "& ", "&;", "&#;", "&#x;", "&#xZZ;", "&nosuch;", "&amp "][src.choice(8)];
-            Some((ins(s.end, what), "raw_markup_char_or_malformed_reference", Scope::Both))
+            // followed by a run of (multi-byte) characters without ';' so that error paths see long tails
+            let mut w = what.to_string();
+            let fill = src.choice(48);
+            for _ in 0..fill {
+                w.push_str(["a", "é", "研", "\u{1F600}", " "][src.choice(5)]);
+            }
+            // inside content when the element has an explicit end tag, else right after it
+            let at = if s.end - s.start > 2 { s.start } else { s.end };
+            Some((ins(at, &w), "raw_markup_char_or_malformed_reference", Scope::Both))
         }
         12 => {
             let v = pick_span(src, spans, |s| matches!(s.kind, ItemKind::AttrValue(_)))?;
@@ -320,8 +328,8 @@ impl Property for C03 {
             knobs: Knobs { max_nodes: 14, variant, ..Default::default() },
         };
         match tier {
-            Tier::Quick => vec![mk("damage", 300_000, 0, 1000), mk("garbage", 200_000, 1, 200), mk("bytes", 60_000, 2, 200)],
-            Tier::Thorough => vec![mk("damage", 6_000_000, 0, 1000), mk("garbage", 4_000_000, 1, 300), mk("bytes", 1_000_000, 2, 300)],
+            Tier::Quick => vec![mk("damage", 300_000, 0, 1000), mk("garbage", 200_000, 1, 200), mk("bytes", 60_000, 2, 200), mk("text-soup", 100_000, 3, 200)],
+            Tier::Thorough => vec![mk("damage", 6_000_000, 0, 1000), mk("garbage", 4_000_000, 1, 300), mk("bytes", 1_000_000, 2, 300), mk("text-soup", 3_000_000, 3, 300)],
         }
     }
 
@@ -370,7 +378,25 @@ impl Property for C03 {
                 Verdict::Pass
             }
             v => {
-                let (text, bytes): (String, Vec<u8>) = if v == 1 {
+                let (text, bytes): (String, Vec<u8>) = if v == 3 {
+                    // character-data soup inside one element or one attribute value
+                    const SOUP: &[&str] = &["a", "b", " ", "é", "研", "究", "\u{1F600}", "&", ";", "#", "x", "1", "amp", "lt", "&#", "&#x", "]", ">", "\r", "\n", "\t", "\u{a0}", "\u{fffd}", "'", "\""];
+                    let n = src.choice(90);
+                    let mut soup = String::new();
+                    for i in 0..n {
+                        if i > 0 && src.exhausted() {
+                            break;
+                        }
+                        soup.push_str(SOUP[src.weighted(&[6, 3, 3, 6, 6, 4, 4, 3, 2, 1, 1, 1, 1, 1, 1, 1, 1, 1, 1, 1, 1, 1, 1, 1, 1])]);
+                    }
+                    let s = match src.choice(3) {
+                        0 => format!("<a>{}</a>", soup),
+                        1 => format!("<a k=\"{}\"/>", soup.replace('"', "")),
+                        _ => format!("<a xmlns:p=\"{}\"/>", soup.replace('"', "")),
+                    };
+                    let b = s.as_bytes().to_vec();
+                    (s, b)
+                } else if v == 1 {
                     let n = src.choice(30);
                     let mut s = String::new();
                     for i in 0..n {
@@ -387,6 +413,9 @@ impl Property for C03 {
                 };
                 ctx.fingerprint(&bytes);
                 ctx.nontrivial = text.contains("<a") || text.contains("<b") || text.contains("<p:");
+                if v == 3 {
+                    ctx.nontrivial = text.contains('&') || text.chars().any(|c| c.len_utf8() > 1);
+                }
                 ctx.rendering(|| format!("{:?}", text));
                 for en in ["parse", "parse_with_span_info", "parse_fragment", "parse_fragment_with_span_info", "parse_bytes"] {
                     let r: Result<Result<Node, String>, String> = guarded(|| match en {
